@@ -21,7 +21,7 @@ var (
 // the table universe of spec/TransferGen.tla: T1 = {b1,b2}, T2 = {b2,b3}, T3 = {b4}
 func fixedUniverse() (*prune.Universe, error) {
 	fixedOnce.Do(func() {
-		fixedU, fixedErr = prune.BuildUniverse(prune.FixedTables)
+		fixedU, fixedErr = prune.BuildUniverse(prune.FixedTables, prune.FixedKV)
 		if fixedErr == nil {
 			t1, t2 := fixedU.Tables[1], fixedU.Tables[2]
 			if string(t1.BlockSum[1]) != string(t2.BlockSum[0]) || string(t1.IdxSum[1]) != string(t2.IdxSum[0]) {
